@@ -109,7 +109,8 @@ def main(tier_):
                     cases.append(c)
             # sequences
             if any(nr == "openat2" and cls == "tree" for (_, nr, cls) in sites):
-                for n in ((3, 16) if quick else (1, 2, 15, 16, 17, 40)):
+                # 5000 = "persistent": the property fixes no bound, so only a sequence no sane bound survives must end in a safety violation
+                for n in ((2, 5000) if quick else (1, 2, 15, 16, 17, 40, 5000)):
                     c = copy.deepcopy(bc)
                     c["id"] = "eagain|%s|%s|c%d|n%d" % (bc["meta"]["scenario"], bc["meta"]["feat"], j, n)
                     c["raw"] = False
@@ -204,9 +205,13 @@ def main(tier_):
     ecases = []
     for call in (dict(op="resolve", path="a/b/c"), dict(op="resolve", path="la/../nx", nofollow=True), dict(op="open", path="la/c", oflags=O["RDONLY"] | O["DIRECTORY"]),
                  dict(op="open", path="f", oflags=O["PATH"]), dict(op="readlink", path="la")):
-        for n in (1, 2, 15, 16, 17, 40):
+        for n in (1, 2, 15, 16, 17, 40, 5000):
             ecases.append(dict(id="eagain-conf|%s|%s|%d" % (call["op"], call["path"], n), tree=race.RACE_TREES["links"], feat={"openat2": True}, trace=True, raw=False,
                                calls=[call], faults=[dict(call=0, nr="openat2", errno=11, count=n)]))
+    eb_cases = [dict(id="eagain-base|%d" % i, tree=race.RACE_TREES["links"], feat={"openat2": True}, trace=False, calls=[cl])
+                for i, cl in enumerate({json.dumps(c["calls"][0], sort_keys=True): c["calls"][0] for c in ecases}.values())]
+    ebase = {json.dumps(c["calls"][0], sort_keys=True): r for c, r in zip(eb_cases, run_pv(eb_cases, jobs=4, tag="C10eb"))}
+    bounds = set()
     eres = run_pv(ecases, jobs=8, tag="C10e")
     econf = lookup_conformance(ecases, eres)
     for d in econf["drift"][:5]:
@@ -215,10 +220,13 @@ def main(tier_):
         n = c["faults"][0]["count"]
         o = lib_outcome(((r.get("out") or [{}])[0].get("results") or [{}])[0])
         natt = sum(1 for e in r.get("events", []) if e.get("ev") == "sys" and e.get("nr") == "openat2" and e.get("dfd_class") == "tree")
-        if (n >= 16) != (o == ("err", "SAFETY")) or natt != min(n + 1, 16):
+        base = lib_outcome(((ebase[json.dumps(c["calls"][0], sort_keys=True)].get("out") or [{}])[0].get("results") or [{}])[0])
+        bounds.add(natt if o == ("err", "SAFETY") else 0)
+        # sound for any retry bound b with 3 <= b < 5000: the outcome is the unfaulted one or a safety violation, the
+        # first two EAGAINs are ridden out, a persistent sequence is not; the exact bound (16) is evidence and model drift
+        if o not in (base, ("err", "SAFETY")) or (n <= 2 and o != base) or (n >= 5000 and o != ("err", "SAFETY")):
             v.violation(dict(check="eagain-bound", op=c["calls"][0]["op"], n=n, outcome=list(o), attempts=natt),
-                        "C10: %s under %d consecutive EAGAINs of openat2 made %d attempts and returned %s; expected %s after %d attempts" % (
-                            c["calls"][0], n, natt, o, "a safety violation" if n >= 16 else "the kernel's answer", min(n + 1, 16)), c)
+                        "C10: %s under %d consecutive EAGAINs of openat2 made %d attempts and returned %s; the unfaulted call returns %s" % (c["calls"][0], n, natt, o, base), c)
     wall = time.time() - t0
     rc = v.finish()
     samples = [dict(case=r["case"], op=r["op"], site=r["site"], errno=r["errno"], fired=r["fired"], outcome=r["outcome"], errkind=r["errkind"][:80]) for r in recs[:3] + recs[-3:]]
@@ -229,6 +237,6 @@ def main(tier_):
                     "non-trivial = the fault actually fired; distinct = distinct (operation, fault kind, syscall, errno, outcome class)",
                exhaustive=not quick, single_fault_space=space, fired=stats["fired"], not_fired=stats["not_fired"],
                outcomes={k: n for k, n in stats.items() if k.startswith("outcome_")}, kernel_model_mismatches=len(kmm),
-               eagain_model_conformance=dict(validated=econf["validated"], accepted=econf["accepted"], drift=econf["drift"][:5]), build_s=round(build_s, 1))
+               eagain_model_conformance=dict(validated=econf["validated"], accepted=econf["accepted"], drift=econf["drift"][:5], retry_bound_observed=sorted(bounds - {0})), build_s=round(build_s, 1))
     write_evidence("C10", tier_, "model_checking", cov, ASSUME, wall, len(v.violations))
     return rc
